@@ -796,4 +796,58 @@ pub mod verif_hooks {
         }
         v
     }
+
+    use alloc::vec::Vec;
+
+    /// What `hb_ot_map_builder_t::new` + `compile` read from one layout table (0 = GSUB, 1 = GPOS):
+    /// `select_script`, `select_script_language`, `get_required_language_feature`.
+    #[derive(Debug, Clone, PartialEq, Eq)]
+    pub struct Selection {
+        pub found: bool,
+        pub script_index: u16,
+        pub chosen_script: u32,
+        pub lang_index: Option<u16>,
+        pub required: Option<(u16, u32)>,
+    }
+
+    /// None = the face has no such table; Some(None) = `select_script` found nothing.
+    pub fn select(
+        face: &hb_font_t,
+        table_index: usize,
+        script_tags: &[u32],
+        lang_tags: &[u32],
+    ) -> Option<Option<Selection>> {
+        let ti = if table_index == 0 { TableIndex::GSUB } else { TableIndex::GPOS };
+        let table = face.layout_table(ti)?;
+        let st: Vec<hb_tag_t> = script_tags.iter().map(|t| hb_tag_t(*t)).collect();
+        let lt: Vec<hb_tag_t> = lang_tags.iter().map(|t| hb_tag_t(*t)).collect();
+        let (found, idx, tag) = match table.select_script(&st) {
+            Some(v) => v,
+            None => return Some(None),
+        };
+        let lang_index = table.select_script_language(idx, &lt);
+        let required = table
+            .get_required_language_feature(idx, lang_index)
+            .map(|(i, t)| (i, t.as_u32()));
+        Some(Some(Selection {
+            found,
+            script_index: idx,
+            chosen_script: tag.as_u32(),
+            lang_index,
+            required,
+        }))
+    }
+
+    /// `find_language_feature` on one table.
+    pub fn find_language_feature(
+        face: &hb_font_t,
+        table_index: usize,
+        script_index: u16,
+        lang_index: Option<u16>,
+        feature_tag: u32,
+    ) -> Option<Option<u16>> {
+        let ti = if table_index == 0 { TableIndex::GSUB } else { TableIndex::GPOS };
+        let table = face.layout_table(ti)?;
+        Some(table.find_language_feature(script_index, lang_index, hb_tag_t(feature_tag)))
+    }
 }
